@@ -79,6 +79,38 @@ def read_tree(root):
     return res
 
 
+_parse_cache = {}
+_orig_parse = None
+
+
+def enable_parse_cache():
+    """Memoise Module.parseString per input text inside this worker process and hand out deep copies.
+    Parsing costs ~0.5 ms/char and is repeated for every option combination of the same text; the generators
+    still run unchanged.  The first time a text is seen the caller may cross-check cached vs fresh output."""
+    global _orig_parse
+    import copy
+    import gtwrap.interface_parser as ip
+    if _orig_parse is not None:
+        return
+    _orig_parse = ip.Module.parseString
+
+    def cached(s):
+        if s not in _parse_cache:
+            if len(_parse_cache) > 64:
+                _parse_cache.clear()
+            _parse_cache[s] = _orig_parse(s)
+        return copy.deepcopy(_parse_cache[s])
+    ip.Module.parseString = staticmethod(cached)
+
+
+def disable_parse_cache():
+    global _orig_parse
+    import gtwrap.interface_parser as ip
+    if _orig_parse is not None:
+        ip.Module.parseString = staticmethod(_orig_parse)
+        _orig_parse = None
+
+
 # ------------------------------------------------------------------ C++ statement splitter
 def split_statements(code):
     """Split C++ text into statements at bracket depth 0 on ';' (string/char-literal and comment aware).
